@@ -152,22 +152,23 @@ theorem snapshot_is_prefix_of_mutations (s : St) (h : Reachable c s) :
   simp only [effective, hk] at h2
   rw [h1, ← h2]; rfl
 
-/-- what the ghosts record: `hist` grows by exactly the operation of each mutator label, `childLabels` counts the
-addChild labels, `cut` is set once, by the `endLock` label that finds the span recording, to the values they have at
-that moment, and never changes afterwards. -/
+/-- what the ghosts record: `hist` grows by exactly the operation of each mutator label (`mutsOf`: the operation of a
+`mut` label, the exception event of an `endLockPanic` label), `childLabels` counts the addChild labels, `cut` is set
+once, by the `endLock`/`endLockPanic` label that finds the span recording, to the values they have right after that
+label's own operation, and never changes afterwards. -/
 theorem ghost_meaning (s s' : St) (l : Lbl) (h : Reachable c s) (hs : step c s l = some s') :
-    s'.hist = s.hist ++ (match l with | .mut op => [op] | _ => []) ∧
+    s'.hist = s.hist ++ mutsOf [l] ∧
     s'.childLabels = s.childLabels + (match l with | .addChild _ => 1 | _ => 0) ∧
     (∀ k, s.cut = some k → s'.cut = some k) ∧
     (s.cut = none → ∀ k, s'.cut = some k →
-      (∃ e t, l = .endLock e t) ∧ s.data.ended = false ∧ k = (s.hist.length, s.childLabels)) := by
+      isEndLock l = true ∧ s.data.ended = false ∧ k = (s.hist.length + (mutsOf [l]).length, s.childLabels)) := by
   have hce : s.data.ended = false → s.cut = none := fun he => ((inv_reachable c s h).idle he).cut
   cases l <;> simp only [step] at hs
   all_goals (
     repeat' (split at hs)
     all_goals (try (simp at hs))
     all_goals (try subst hs)
-    all_goals simp_all)
+    all_goals simp_all [mutsOf, isEndLock])
 
 /-- **the exported snapshot never changes afterwards**: once the span is ended no label changes the span data, its end
 time or its child count (so `snapshot()` would return the same value again), and the processors' log only grows. -/
@@ -231,6 +232,44 @@ theorem child_count_exact (s : St) (h : Reachable c s) :
   simp only [hk] at h2
   rw [h1]; exact h2
 
+/-- **End while panicking** (`defer span.End()` in a panicking goroutine): the exception event describing the panic is
+formatted and added inside End's first critical section. If this End finds the span recording it wins: its exception
+event is the last operation before the end (`cut` is placed right after it, so by `snapshot_is_prefix_of_mutations` the
+event is in every delivered snapshot, completely) and the call goes on to deliver. If the span is already ended the
+call returns at once and changes nothing: the event is in no snapshot. `end_once`, `single_end_time` and all the other
+theorems hold for runs containing such calls (they are about every reachable state). -/
+theorem panic_event_iff_end_won (s s' : St) (e t : Nat) (typ msg : Bytes)
+    (hs : step c s (.endLockPanic e t typ msg) = some s') :
+    (s.data.ended = false →
+      s'.hist = s.hist ++ [.recordError (some (typ, msg)) []] ∧ s'.cut = some (s.hist.length + 1, s.childLabels) ∧
+      s'.data = C04.step c.lim (C04.step c.lim s.data (.recordError (some (typ, msg)) [])) .end_ ∧
+      s'.endTime = some t ∧ e ∈ s'.tasking) ∧
+    (s.data.ended = true →
+      s'.data = s.data ∧ s'.endTime = s.endTime ∧ s'.cut = s.cut ∧ s'.delivered = s.delivered ∧
+      e ∈ s'.returnedEarly ∧ s'.tasking = s.tasking) := by
+  simp only [step] at hs
+  split at hs
+  · split at hs
+    · rename_i hen
+      simp at hs; subst hs
+      simp [hen]
+    · rename_i hen
+      simp at hs; subst hs
+      simp [hen]
+  · simp at hs
+
+def cfgPanic : Cfg := { lim := ⟨-1, -1, -1, -1, -1, -1⟩, name := [0x73], hasTask := false }
+
+/-- non-vacuity of the panic path: a panicking End (call 1) and a plain End (call 2) race; call 1 takes the lock first,
+its exception event is the last event of the snapshot processor 7 receives (once, end time 10); call 2 returns early. -/
+example : ∃ s, run cfgPanic (init cfgPanic)
+      [.register 7, .mut (.addEvent [0x65] []), .endCall 1 10, .endCall 2 20, .endLockPanic 1 10 [0x54] [0x6d],
+       .endLock 2 20, .taskEnd 1, .loadProcs 1, .snapshot 1 [7]] = some s ∧
+    s.returnedEarly = [2] ∧ s.cut = some (2, 0) ∧ s.endTime = some 10 ∧
+    s.delivering.map (fun x => x.2.1.snap.events.map (·.name)) = [[[0x65], C04.excName]] := by
+  refine ⟨_, rfl, ?_⟩
+  decide
+
 /-- forget what the sampler decided for the children -/
 def forgetDecision : Lbl → Lbl
   | .addChild _ => .addChild .recordAndSample
@@ -268,7 +307,7 @@ a processor's OnEnd). -/
 theorem span_deadlock_free (s : St) :
     (∀ l : Lbl, lockScan false l.prims = some false) ∧
     (∀ op, op ≠ .end_ → (step c s (.mut op)).isSome) ∧ (∀ d, (step c s (.addChild d)).isSome) ∧ (step c s .access).isSome ∧
-    (∀ x ∈ s.called, (step c s (.endLock x.1 x.2)).isSome) ∧
+    (∀ x ∈ s.called, (step c s (.endLock x.1 x.2)).isSome ∧ ∀ typ msg, (step c s (.endLockPanic x.1 x.2 typ msg)).isSome) ∧
     (∀ e ∈ s.tasking, (step c s (.taskEnd e)).isSome) ∧
     (∀ e ∈ s.loading, (step c s (.loadProcs e)).isSome) ∧
     (∀ x ∈ s.snapping, (step c s (.snapshot x.1 x.2)).isSome) ∧
@@ -278,7 +317,10 @@ theorem span_deadlock_free (s : St) :
   refine ⟨?_, ?_, by simp [step], by simp [step], ?_, ?_, ?_, ?_, ?_⟩
   · intro l; cases l <;> rfl
   · intro op hop; simp [step, hop]
-  · intro x hx; simp only [step]; rw [if_pos hx]; split <;> rfl
+  · intro x hx
+    refine ⟨?_, ?_⟩
+    · simp only [step]; rw [if_pos hx]; split <;> rfl
+    · intro typ msg; simp only [step]; rw [if_pos hx]; split <;> rfl
   · intro e he; simp only [step]; rw [if_pos he]; rfl
   · intro e he; simp only [step]; rw [if_pos he]; split <;> rfl
   · intro x hx; simp only [step]; rw [if_pos hx]; rfl
@@ -367,8 +409,9 @@ theorem run_reachable (s : St) (ls : List Lbl) (s' : St) (h : Reachable c s) (hr
 
 /-- `snapshot_is_prefix_of_mutations` and `child_count_exact` without ghosts, for every label sequence that is a run of
 the LTS from the initial state: every delivered snapshot is C04's `snapshot ∘ run` of the operations of exactly the
-mutator labels that come before the first `endLock` label of the sequence (in label order) followed by End, and its
-child count is the number of addChild labels before that label. -/
+mutator labels that come before the first `endLock`/`endLockPanic` label of the sequence (in label order; `beforeEnd`
+includes that label, whose own operation is the panic's exception event or nothing) followed by End, and its child
+count is the number of addChild labels before that label. -/
 theorem snapshot_is_prefix_of_mutations_trace (ls : List Lbl) (s : St) (hrun : run c (init c) ls = some s) :
     ∀ d ∈ s.delivered,
       d.2.snap = C04.snapshot (C04.run c.lim (C04.init c.name) (mutsOf (beforeEnd ls) ++ [.end_])) ∧
@@ -410,7 +453,7 @@ example : ∃ s, run cfgDemo (init cfgDemo) demoSchedule = some s ∧
   decide
 
 /-- the controlled-schedule replay of the driver only takes LTS steps: its states are covered by the theorems -/
-theorem sched_reachable (g : Gates) (ops : List SOp) : Reachable c (runScript c g (init c) ops).1 :=
-  runScript_reachable g _ ops Reachable.init
+theorem sched_reachable (g : Gates) (ops : List SOp) : Reachable c (runScript2 c g (init c) {} ops).1.1 :=
+  runScript2_reachable g _ _ ops Reachable.init
 
 end Otel.C10
